@@ -613,6 +613,19 @@ type writeSet struct {
 	why    string
 	ghosts map[string]bool
 	allocs bool
+	// when all is set: the functions whose (unknown) execution made it so; allUnrooted: some reason for
+	// `all` is not the call of a known function with a body (then stability falls back to the CHA callees)
+	allRoots    []*ssa.Function
+	allUnrooted bool
+}
+
+func (ws *writeSet) setAll(why string, root *ssa.Function) {
+	ws.all, ws.why = true, why
+	if root != nil && root.Blocks != nil {
+		ws.allRoots = append(ws.allRoots, root)
+	} else {
+		ws.allUnrooted = true
+	}
 }
 
 func (ws *writeSet) add(fam, sortv string, base ssa.Value, inLoop func(ssa.Value) bool) {
@@ -837,9 +850,9 @@ func (u *Unit) scanWrites(fr *frame, blocks map[*ssa.BasicBlock]bool, ws *writeS
 					ws.ghosts["lastkey:"+id] = true
 				}
 			case *ssa.Go, *ssa.Send, *ssa.Select:
-				ws.all, ws.why = true, "concurrency"
+				ws.setAll("concurrency", nil)
 			case *ssa.Defer:
-				ws.all, ws.why = true, "defer in loop"
+				ws.setAll("defer in loop", nil)
 			case ssa.CallInstruction:
 				iv, _ := ins.(ssa.Value)
 				u.scanCallWrites(fr, x.Common(), iv, ws, inLoop, depth)
@@ -868,34 +881,21 @@ func (u *Unit) runLoopCut(fr *frame, L *Loop, spec *LoopSpec, entries []edgeStat
 	// 2. havoc
 	ws := &writeSet{fams: map[string]*famWrite{}, ghosts: map[string]bool{}}
 	if spec.ModAll {
-		ws.all, ws.why = true, "modifies *"
+		ws.setAll("modifies *", nil)
 	}
 	u.scanEntry = entrySt
 	u.scanWrites(fr, L.Blocks, ws, 0)
 	u.scanEntry = nil
 	head := entrySt.Clone()
-	if ws.all {
-		if roots, ok := u.w.loopCallees(fr.fn, L.Blocks); ok {
-			u.havocRoots, u.havocSelf, u.havocRooted = roots, fr.fn, true
-		}
-		u.havocAll(head, fmt.Sprintf("loop %d: %s", L.Ordinal, ws.why))
-	} else {
-		for _, fam := range sortedKeys(ws.fams) {
-			fw := ws.fams[fam]
-			for d := range fw.deps {
-				if _, written := ws.fams[d]; written {
-					fw.whole = true
-				}
-			}
-		}
-		for _, fam := range sortedKeys(ws.fams) {
-			fw := ws.fams[fam]
-			old := u.heapGet(entrySt, fam, fw.sort)
+	// location-wise havoc of one family on top of `old` (its value at loop entry, or - for a stable family in a
+	// havoc-all loop - its value after the whole-heap havoc)
+	applyFam := func(fam string, old Term) {
+		fw := ws.fams[fam]
 			if fw.whole {
 				head.Heap[fam] = u.ctx.Fresh("H", fw.sort)
 				u.famSort[fam] = fw.sort
 				u.written[fam] = true
-				continue
+				return
 			}
 			cur := old
 			for _, b := range fw.bases {
@@ -940,7 +940,7 @@ func (u *Unit) runLoopCut(fr *frame, L *Loop, spec *LoopSpec, entries []edgeStat
 				head.Heap[fam] = u.ctx.Fresh("H", fw.sort)
 				u.famSort[fam] = fw.sort
 				u.written[fam] = true
-				continue
+				return
 			}
 			if fw.freshW && strings.HasPrefix(fw.sort, "(Array Int") {
 				// writes to objects allocated in the same iteration: older objects keep (the location-wise havocked) contents
@@ -950,14 +950,54 @@ func (u *Unit) runLoopCut(fr *frame, L *Loop, spec *LoopSpec, entries []edgeStat
 				head.Heap[fam] = nh
 				u.famSort[fam] = fw.sort
 				u.written[fam] = true
-				continue
+				return
 			} else if fw.freshW {
 				head.Heap[fam] = u.ctx.Fresh("H", fw.sort)
 				u.famSort[fam] = fw.sort
 				u.written[fam] = true
-				continue
+				return
 			}
 			u.heapSet(head, fam, cur)
+		
+	}
+	if ws.all {
+		if !ws.allUnrooted {
+			// every reason for the whole-heap havoc is the call of a known function: stability is decided from
+			// those callees; the loop's own stores and its contracted callees are applied location-wise below
+			u.havocRoots, u.havocSelf, u.havocRooted = ws.allRoots, nil, true
+		} else if roots, ok := u.w.loopCallees(fr.fn, L.Blocks); ok {
+			u.havocRoots, u.havocSelf, u.havocRooted = roots, fr.fn, true
+		}
+		rootedByCallees := !ws.allUnrooted
+		u.havocAll(head, fmt.Sprintf("loop %d: %s", L.Ordinal, ws.why))
+		if rootedByCallees {
+			rec := u.hids[head.Hid]
+			kept := func(f string) bool { return u.w.stableAt(f, u.fn, rec) != nil }
+			for _, fam := range sortedKeys(ws.fams) {
+				if !kept(fam) {
+					continue // havocked as a whole by havocAll
+				}
+				fw := ws.fams[fam]
+				for d := range fw.deps {
+					// the targets were located through family d: it must not change in the loop
+					if _, written := ws.fams[d]; written || !kept(d) {
+						fw.whole = true
+					}
+				}
+				applyFam(fam, u.heapGet(head, fam, fw.sort))
+			}
+		}
+	} else {
+		for _, fam := range sortedKeys(ws.fams) {
+			fw := ws.fams[fam]
+			for d := range fw.deps {
+				if _, written := ws.fams[d]; written {
+					fw.whole = true
+				}
+			}
+		}
+		for _, fam := range sortedKeys(ws.fams) {
+			applyFam(fam, u.heapGet(entrySt, fam, ws.fams[fam].sort))
 		}
 		if ws.allocs {
 			u.bumpAlloc(head)
